@@ -41,9 +41,16 @@ THEOREMS = [
     "Nix.C13.referring_code",
     "Nix.C13.referring_objects_code",
     "Nix.C13.source_referring_code",
+    # ids as texts (caller-supplied ids in any spelling): the look-up chain as harness/extract/c13_idlookup.py reads it
+    "Nix.C13.id_lookup_code",
+    "Nix.C13.parent_ids_code",
+    "Nix.C13.parent_source_ids_code",
+    "Nix.C13.referring_ids_match",
 ]
 ASSUMPTIONS = [
-    "entities are identified by a key (creation counter) standing for the uuid; uuid4 freshness is assumed",
+    "entities are identified by a key (creation counter) standing for the uuid; uuid4 freshness is assumed; ids "
+    "supplied by the caller (create_section(oid=...), any spelling uuid.UUID reads) are pairwise different UUID values "
+    "(two spellings of one UUID, or a supplied id equal to an existing one, are outside: duplicate ids, C20/C04)",
     "depth limits are naturals (a negative limit is outside the documented meaning and outside the model)",
     "limit=None is sys.maxsize = 2^63-1; 'unlimited => whole subtree' carries the hypothesis height <= maxsize",
     "names are non-empty, '/'-free and not UUID-like; types non-empty (name rules and name/id dispatch belong to C03)",
@@ -56,6 +63,10 @@ TRUSTED_EXTRA = ["harness/extract/findshape.py renders the shape of util/find.py
                  "find_* wrappers, Section.find_related / parent, Source.parent_source / _find_parent_recursive / "
                  "parent_block and every referring_* property as constants (Generated/FindShape.lean); everything it "
                  "does not parameterise is matched literally (ExtractError otherwise)",
+                 "harness/extract/c13_idlookup.py renders what H5Group.get_by_id compares the stored entity_id with and what "
+                 "Section.create_new stores for a supplied oid (Generated/IdLookup.lean); Container.__contains__, "
+                 "H5Group.__contains__, Entity.id / __eq__, util.is_uuid are matched literally; lean/NixModel/Pure/TreeIds.lean "
+                 "interprets it (its str(uuid.UUID(text)) is pinned against CPython by the correspondence)",
                  "lean/NixModel/Pure/TreeShape.lean (interpreter of those constants, run by the driver) and the "
                  "hand-written forest model lean/NixModel/Pure/Tree.lean, tied to the code by differential histories"]
 
@@ -72,7 +83,7 @@ WIDE_NAMES = NAMES + ["d", "e", "f", "g", "h", "i", "j", "k"]   # some histories
 TYPES = ["t1", "t2"]
 POSNAME = "__pos__"
 P_OID = [0.0, 0.0, 0.1, 0.5, 0.9]     # per history: share of sections created with a caller-supplied id
-QUERY_OPS = ("find", "find_related", "parent", "parent_source", "parent_block", "referring")
+QUERY_OPS = ("find", "find_related", "parent", "parent_source", "parent_block", "referring", "canon")
 
 
 def _errname(e):
@@ -369,6 +380,10 @@ class Impl:
             self.cached = {}
             self.f = self.nixio.File.open(self.path, self.nixio.FileMode.ReadWrite)
             return None
+        if op == "canon":
+            # the canonical text of an id, CPython's own (pins `canonText?` of Pure/TreeIds.lean)
+            import uuid
+            return str(uuid.UUID(line[1]))
         # ---- queries ----
         if op == "set_link":
             _, s = self.get(line[1], ("section",))
@@ -457,6 +472,46 @@ def spell_uuid(rng, how=None):
     if how == "braces_hex":
         return "{" + u.replace("-", "") + "}"
     return "".join(c.upper() if rng.random() < 0.5 else c for c in u)     # mixed case
+
+
+def gen_canon_lines(rng, n):
+    """`["canon", text]` lines: spellings uuid.UUID reads (and near misses)"""
+    import uuid
+    out = []
+    for _ in range(n):
+        r = rng.random()
+        if r < 0.4:
+            t = spell_uuid(rng)
+        else:
+            h = "%032x" % rng.getrandbits(rng.choice([128, 128, 100, 64, 8]))
+            if rng.random() < 0.5:
+                h = "".join(c.upper() if rng.random() < 0.5 else c for c in h)
+            k = rng.random()
+            if k < 0.15:
+                pre = rng.choice(["0x", "0X", "+", " ", "\t", "0x_", "-", " +0x"])
+                h = pre + h[len(pre):]
+            elif k < 0.3:
+                i = rng.randrange(1, 30)
+                h = h[:i] + "_" + h[i + 1:]
+            elif k < 0.4:
+                h = h[:31] + rng.choice([" ", "\n", "g", "_", "x"])
+            elif k < 0.5:
+                d = rng.choice(["\u0660", "\u0966", "\uff10", "\U0001d7ce"])
+                i = rng.randrange(0, 32)
+                h = h[:i] + chr(ord(d) + rng.randrange(10)) + h[i + 1:]
+            elif k < 0.6:
+                h = h[:rng.choice([30, 31])] if rng.random() < 0.5 else h + rng.choice(["0", "00", "ab"])
+            # hyphens anywhere, braces and prefixes in any number
+            for _j in range(rng.choice([0, 0, 1, 4, 6])):
+                i = rng.randrange(0, len(h) + 1)
+                h = h[:i] + "-" + h[i:]
+            if rng.random() < 0.3:
+                h = rng.choice(["{", "{{", "}{", ""]) + h + rng.choice(["}", "}}", ""])
+            if rng.random() < 0.3:
+                h = rng.choice(["urn:uuid:", "urn:", "uuid:", "URN:UUID:", "urn:uuid:urn:"]) + h
+            t = h
+        out.append(["canon", t])
+    return out
 
 
 def gen_op(impl, rng, phase):
@@ -720,6 +775,8 @@ def _nontrivial(line, out):
         return v is not None
     if op in ("referring", "find_related"):
         return bool(v)
+    if op == "canon":
+        return v != line[1]
     return op in ("delete", "reopen", "unlink_source", "del_metadata", "parent_block", "copy_section")
 
 
@@ -751,6 +808,9 @@ def correspondence(ctx):
         dist["max_depth"][str(stats.get("depth", 0))] = dist["max_depth"].get(str(stats.get("depth", 0)), 0) + 1
         nb_ = "%d" % (10 * (stats.get("n", 0) // 10))
         dist["entities"][nb_] = dist["entities"].get(nb_, 0) + 1
+    canon = gen_canon_lines(ctx.rng, ctx.budget(400, 4000))
+    histories.append(canon)
+    impl_outs.append(run_history(path, canon))
     model_outs = run_model(histories)
     disagreements = []
     seen = set()
@@ -796,7 +856,9 @@ def correspondence(ctx):
             "rule": "histories of create/link/unlink/set/del metadata/delete/reopen/copy_section(keep_id=False, deep or "
                     "shallow, <= 4 per history)/Section.link operations interleaved with "
                     "find / find_related / parent / parent_source / parent_block / referring queries, generated adaptively against "
-                    "the live file (names from a pool of 4 so that they repeat across subtrees and levels, 30% of the histories "
+                    "the live file (per history 0 / 10 / 50 / 90 % of the sections created with a caller-supplied id in one of "
+                    "10 spellings uuid.UUID reads, 5% of those texts no id at all; a stream of ['canon', text] lines pins "
+                    "str(uuid.UUID(text)) of the model against CPython; names from a pool of 4 so that they repeat across subtrees and levels, 30% of the histories "
                     "with 12 names for wide trees, limits "
                     "0..depth+1 and None, 7 filter shapes, queries (all kinds) through cached, re-fetched, found (element of a "
                     "find_* result), metadata-link and source-link handles, ~4% "
@@ -910,7 +972,11 @@ def check_state(impl, history, failures, tag, full=True, rng=None):
 
     filters = ORACLE_FILTERS if full else [["all"], rng.choice(ORACLE_FILTERS[1:])]
 
-    def check_find(api_root, finder, roots, root_is_node, qroot):
+    def node_filters():
+        # searches started at an inner node: every limit, the plain filter and two of the others
+        return filters if len(filters) <= 3 or rng is None else [filters[0]] + rng.sample(filters[1:], 2)
+
+    def check_find(api_root, finder, roots, root_is_node, qroot, filters=filters):
         nonlocal n_eval
         h = _height(roots)
         for limit in list(range(0, h + 2)) + [None]:
@@ -944,7 +1010,7 @@ def check_state(impl, history, failures, tag, full=True, rng=None):
                  "container.py")
             continue
         if full or rng.random() < 0.3:
-            check_find(h, "find_sections", [n], True, ["section", n["name"]])
+            check_find(h, "find_sections", [n], True, ["section", n["name"]], node_filters())
         # parent: re-fetched handle
         want = None if par is None else par["id"]
         n_eval += 1
@@ -1009,7 +1075,7 @@ def check_state(impl, history, failures, tag, full=True, rng=None):
                      n["id"], "container.py")
                 continue
             if full or rng.random() < 0.3:
-                check_find(h, "find_sources", [n], True, ["source", n["name"]])
+                check_find(h, "find_sources", [n], True, ["source", n["name"]], node_filters())
             cands = [("fresh", h)]
             for rh in rb["holders"]:
                 if n["id"] in rh["srcs"] and rh["id"] in hold:
@@ -1105,7 +1171,7 @@ def check_state(impl, history, failures, tag, full=True, rng=None):
     return n_eval
 
 
-def oracle_history(ctx, path, lines, failures, full=True):
+def oracle_history(ctx, path, lines, failures, full=True, every_filter=False):
     """run the state-changing lines of a history, then check the final state before and after reopen"""
     state = [l for l in lines if l[0] not in QUERY_OPS]
     impl = Impl(path)
@@ -1113,9 +1179,10 @@ def oracle_history(ctx, path, lines, failures, full=True):
     try:
         for l in state:
             impl.do(l)
-        n += check_state(impl, state, failures, "live", full, ctx.rng)
+        rng = None if (every_filter and full) else ctx.rng
+        n += check_state(impl, state, failures, "live", full, rng)
         impl.do(["reopen"])
-        n += check_state(impl, state, failures, "reopened", full, ctx.rng)
+        n += check_state(impl, state, failures, "reopened", full, rng)
     finally:
         impl.close()
     return n
@@ -1147,12 +1214,12 @@ def oracle(ctx, broken, hints):
     n = 0
     hist = 0
     for h in FIXED_CASES + core.load_corpus(PROP):
-        n += oracle_history(ctx, path, h, failures)
+        n += oracle_history(ctx, path, h, failures, every_filter=True)
         hist += 1
     for h in hints[:20]:
         n += oracle_history(ctx, path, h, failures)
         hist += 1
-    budget = 400 if broken and not ctx.quick() else (80 if broken else ctx.budget(24, 300))
+    budget = 400 if broken and not ctx.quick() else (80 if broken else ctx.budget(20, 300))
     for i in range(budget):
         if len(failures) >= 5:
             break
@@ -1195,7 +1262,7 @@ def replay_failure(ctx, fj):
     inp = fj["input"]
     failures = []
     path = ctx.tmpfile("c13-replay.nix")
-    oracle_history(ctx, path, inp["history"], failures)
+    oracle_history(ctx, path, inp["history"], failures, every_filter=True)
     for f in failures:
         if f.input["query"] == inp["query"] or f.what == fj["what"]:
             return f
@@ -1215,11 +1282,16 @@ MANIFEST = {
                   "id-renewing copy_section operations has unique ids and correct cached parents, hence Section.parent, "
                   "Source.parent_source and parent_block are the containing entity through every kind of handle, "
                   "find_related lists parent, siblings, self and children, and the referring lists (per kind and "
-                  "referring_objects, of sections and of sources) are exactly the inverse of the stored links.",
+                  "referring_objects, of sections and of sources) are exactly the inverse of the stored links. Ids as texts: "
+                  "the look-up chain behind `self.id in container` (Container.__contains__ -> H5Group.get_by_id -> name "
+                  "fall-back, Generated/IdLookup.lean) compares the key as given and create_section(oid=...) stores the text as "
+                  "given, hence Section.parent / Source.parent_source evaluated on the stored id texts are the containing "
+                  "entity for every assignment of pairwise different id texts in any spelling uuid.UUID reads.",
     "level_note": "The interpreter of the extracted shape is what the correspondence driver executes; statements the "
                   "translator does not parameterise are matched literally (an unexpected statement is a broken tie, not a "
                   "silent pass). The forest model and the interpreter are tied to the code by differential histories on "
-                  "real HDF5 files (names repeated across subtrees and levels, copies, handles that are cached / re-fetched "
+                  "real HDF5 files (names repeated across subtrees and levels, sections with caller-supplied ids in upper case / "
+                  "braces / urn / without hyphens / mixed case, copies, handles that are cached / re-fetched "
                   "/ found / reached through metadata and source links, reopen). Partial aspects: limits are naturals; "
                   "'unlimited' assumes tree height <= sys.maxsize; ids are creation counters (uuid4 freshness assumed); "
                   "copies with kept ids, copies through link-reached handles and name/id dispatch for UUID-like names are "
